@@ -129,6 +129,33 @@ func (o *OracleC05) AfterCall(n *Node, st *Step) {
 			}
 		}
 	}
+	// Timing after a view change: the first timer of a new view is the full one of the dBFT
+	// timeout ladder (T << (view+1) for a node that is not the view's primary) unless there is
+	// a previous height's proposal to measure from; a node that has never held a proposal of
+	// the previous height (in particular at the first block of a chain) has nothing to subtract.
+	if st.Op != OpStart && st.Op != OpReset && st.PostBI == st.PreBI && st.PostV > st.PreV && d.MyIndex >= 0 && !n.flagWO && !d.IsPrimary() &&
+		!d.CommitSent() && !d.PreCommitSent() && !d.RequestSentOrReceived() && !d.BlockSent() {
+		seen := false
+		for k := range n.facts.proposals {
+			if k.h+1 == d.BlockIndex {
+				seen = true
+			}
+		}
+		var last *Out
+		for i := range st.Outs {
+			if st.Outs[i].Kind == OTimerReset {
+				last = &st.Outs[i]
+			}
+		}
+		if !seen && last != nil && last.H == d.BlockIndex && last.V == d.ViewNumber {
+			full := s.sc.TPBAt(d.BlockIndex) << (uint(d.ViewNumber) + 1)
+			if last.D < full {
+				o.viol(n, "timer_shortened_without_previous_proposal", "height %d view %d: the node never held a proposal of height %d, yet the timer armed on entering the view is %v instead of the full %v", d.BlockIndex, d.ViewNumber, d.BlockIndex-1, last.D, full)
+				return
+			}
+			s.note("full_timer_on_view_change_without_previous_proposal")
+		}
+	}
 	if st.Op != OpStart && st.Op != OpReset {
 		return
 	}
